@@ -8,7 +8,8 @@ THEOREMS = ["simp_sub_nonconst", "simp_sub_negative", "simp_sub_tuple_const", "s
 RULE = (
     "queries of C02's grammar into which literal projections are inserted at random expression positions: a tuple / list / "
     "dict literal wrapped around a sub-expression and indexed with a valid constant, an out-of-range constant, a variable, a "
-    "negative index, a slice, a bool, a float, None, a present / absent string key or attribute; non-trivial = at least 8 "
+    "negative index, a slice, a bool, a float, None, a present / absent string key or attribute; dict literals with a "
+    "key that is not a constant before or after the wanted key; non-trivial = at least 8 "
     "AST nodes; distinct = source text"
 )
 EXPLANATION = ('Theorems so far (first layer, about the model of visit_Subscript): a selector that is not an int/str constant leaves the subscript intact around the simplified children (simp_sub_nonconst), a negative constant index leaves a tuple literal intact (simp_sub_negative), a non-negative constant index returns the component or raises the dedicated index error exactly when it is past the end (simp_sub_tuple_const), an absent key leaves a well-formed subscript (simp_sub_dict_absent). Termination / no-internal-error for the whole grammar is in progress. Correspondence: as C02 with the selector stream. Oracle: exception class of the real call (only FuncADLIndexError, and only when some constant non-negative index can be past the end of a literal), ast.unparse + compile of the result, ev equality (semantically intact).')
